@@ -263,7 +263,7 @@ func (r *Rng) value() float64 {
 	case k < 55:
 		return float64(r.Intn(41)) / 4
 	case k < 65:
-		return float64(r.Intn(5)) + float64(r.Intn(7)-3)*3e-9
+		return float64(r.Intn(5)) + float64(r.Intn(7)-3)*[]float64{3e-9, 2e-10}[r.Intn(2)]
 	case k < 72:
 		return float64(r.Intn(5)) + float64(r.Intn(5)-2)*0.9e-6
 	case k < 79:
